@@ -2,6 +2,7 @@
 import inspect
 from symx.api import H
 from spec import registry as REG
+from harness import c08 as C8
 
 PROPERTY = 'C17'
 ASSUMPTIONS = [
@@ -311,6 +312,10 @@ HARNESSES = [
     H('h17_1_decode_reverse', h_decode_reverse,
       lambda tier: [dict(table=t) for t in _REVERSE_NAMES], expect=('ok',),
       desc='value->name maps the library builds for reporting (relocation descriptions, DW_FORM_raw2name, DW_OP_opcode2name, CFA opcode map): lookup of a symbolic code'),
+    H('h17_3_reloc_type_field', C8.h_entry, lambda tier: [dict(elfclass=c, little=l, rela=True, mips=m) for c, l, m in
+                                                         ((64, True, True), (64, False, True), (64, True, False), (64, False, False), (32, True, False), (32, False, False))],
+      expect=('ok',),
+      desc='the relocation type code that gets named is the one the entry encodes: r_info split per class, MIPS64 packed layout in both byte orders (harness shared with C08)'),
     H('h17_2_tables', h_tables, lambda tier: [dict(table=i) for i in range(0, 90)], expect=('ok',),
       desc='every exported (name, value) pair whose name a registry defines: value equals a registry value (ground obligations)'),
 ]
